@@ -443,7 +443,7 @@ def run(run):
     tv = evalrec.validate(run, lt, name='longtext', kind='long-text')
     run.evaluations += len(lt)
     run.notes['long_text_events'] = dict(tv)
-    if tv.get('ok', 0) < 3:
+    if sum(n for k, n in tv.items() if k != 'open') < 3:
         raise xl.MachineryError(f'long-text events: none within the limit was judged ({dict(tv)})')
     zt = [e for part in pool.pmap(record_zone_text, zone_text_events(), nchunks=8) for e in part]
     zv = evalrec.validate(run, zt, name='zonetext', kind='zone-text')
@@ -456,7 +456,7 @@ def run(run):
     run.evaluations += len(bf) + len(eh)
     run.notes['big_float_events'] = dict(bv)
     run.notes['error_history_events'] = dict(hv)
-    if hv.get('ok', 0) < len(eh) // 2:
+    if sum(n for k, n in hv.items() if k != 'open') < len(eh) // 2:
         raise xl.MachineryError(f'error-history events: too few judged ({dict(hv)})')
     events = driver(run.seed, 3000 if run.tier == 'quick' else 40000)
     recorded = [e for part in pool.pmap(record, events) for e in part]
